@@ -77,6 +77,15 @@ class SI(Sc):
     def __ge__(self, o):
         return self._cmp(o, ">=")
 
+    def __floordiv__(self, o):
+        k = Sc.lift(o)
+        if k is not None and SI.wrap(k).const() is not None:
+            c, me = SI.wrap(k).const(), self.const()
+            if me is not None and c:
+                return SI(Poly.const(int(me) // int(c)))
+            return SI(Poly.sym(Fn("floordiv", self.r, int(c))))
+        raise Unsupported("floor division by %r" % (o,))
+
     def __bool__(self):
         c = self.const()
         if c is not None:
@@ -110,6 +119,14 @@ def b_int(x, *a):
         c = SI.wrap(x).const()
         if c is not None:
             return int(c)
+        # int(n / k) of a non-negative count is n // k
+        r = x.r
+        try:
+            d = r.d
+            if d.is_const() and float(d.const_value()).is_integer() and d.const_value() != 1:
+                return SI(Poly.sym(Fn("floordiv", Rat(r.n), int(d.const_value()))))
+        except AttributeError:
+            pass
         return SI(Poly.sym(Fn("int", x.r)))
     return int(x, *a)
 
@@ -482,7 +499,7 @@ def check_amr_header(run, tree):
             if not (isinstance(meta.get("nboundary"), Sc) and meta["nboundary"] == si("nboundary")):
                 vp.append("meta['nboundary'] = %r (required the nboundary record)" % (meta.get("nboundary"),))
             xb = meta.get("xbound")
-            want_xb = [SI(Poly.sym(Fn("int", (si(c) / 2).r))) for c in ("nx", "ny", "nz")]
+            want_xb = [si(c) // 2 for c in ("nx", "ny", "nz")]
             if not (isinstance(xb, list) and len(xb) == 3 and all(isinstance(a, Sc) and a == b for a, b in zip(xb, want_xb))):
                 vp.append("meta['xbound'] = %r (required [int(nx/2), int(ny/2), int(nz/2)])" % (xb,))
             ng = meta.get("ngridlevel")
